@@ -22,6 +22,9 @@ const (
 	progTwo    = "1:r|1:r"        // two statements: not preparable
 	progEOF    = "1:r,!EOF"       // fails after one row with an error wrapping io.EOF
 	progUEOF   = "0:!UEOF"        // fails immediately with an error wrapping io.ErrUnexpectedEOF
+	progWarn   = "1:r,!WARNING"   // fails after one row with an error decorated with severity WARNING
+	progNotice = "0:!NOTICE"      // fails immediately with an error decorated with severity NOTICE
+	progJoin   = "1:r,!JOIN"      // fails after one row with several errors joined into one
 )
 
 type xletter struct {
@@ -77,6 +80,7 @@ func c06Alphabet() (full []xletter, core []xletter, errcore []xletter) {
 		Q(progRows, "ok"), Q("1:!boom", "error"), Q(" ", "blank"),
 		xl("Oversized", "oversized", "", "", oversizedMsg()), xl("UnknownType", "unknown", "", "", pgproto.Msg('z', nil)),
 		P("", progRowErr, "row-cannot-be-encoded-then-error"),
+		P("", progWarn, "fails-with-severity-WARNING"), P("s", progNotice, "fails-with-severity-NOTICE"), P("", progJoin, "fails-with-joined-errors"),
 	}
 	xCloseCore = []xletter{P("", progRows, "rows"), B("", ""), CS(""), CP(""), E(""), DS(""), sync,
 		P("s", progRows, "rows"), B("p", "s"), CS("s"), CP("p"), E("p"), DP("p"),
@@ -255,11 +259,11 @@ func (s xstate) step(l xletter) []xbranch {
 			return []xbranch{{reply: "DC", cbs: []string{"stmt:" + strings.TrimSpace(prog)}, next: s}}
 		case progNoCols:
 			return []xbranch{{reply: "C", cbs: []string{"stmt:" + prog}, next: s}}
-		case progFail, progEOF:
+		case progFail, progEOF, progWarn, progJoin:
 			n := s
 			n.skip = true
 			return []xbranch{{reply: "DE", cbs: []string{"stmt:" + prog}, next: n}}
-		case progUEOF, progRowErr:
+		case progUEOF, progRowErr, progNotice:
 			n := s
 			n.skip = true
 			return []xbranch{{reply: "E", cbs: []string{"stmt:" + prog}, next: n}}
